@@ -58,3 +58,15 @@ def run(ctx, chk):
     chk.floor("CONST-IN", "const pointer parameters of the module", c["const"], 80)
     chk.floor("SM-SIGN", "scalar parameters of the binary-curve multiplication siblings", c["sign"], 25)
     chk.floor("OUT-RBW", "output points of binary-curve functions that also take an input point", c["rbw"], 40)
+    if chk.tier == "thorough":
+        # the other binary fields (their trinomial/pentanomial-specific code and curves are compiled only there)
+        from .. import facts
+        from ..facts import AnalysisBroken
+        for m in (163, 233, 409, 571):
+            name = "B%d" % m
+            facts.CONFIGS.setdefault(name, ["-DFB_POLYN=%d" % m])
+            try:
+                analyse(ctx, ctx.program(name), chk)
+            except AnalysisBroken as e:
+                chk.note("thorough: configuration %s: %s" % (name, str(e)[:160]))
+            ctx._prog.pop(name, None)
